@@ -36,9 +36,10 @@ Definition exc_of_action (a : action) : exc :=
 Inductive value := VBool (b : bool) | VNone | VExc (x : exc).
 Definition var := N.
 
-Inductive rhs := RConst (v : value) | RVar (x : var).
 (* the conditions that occur: `if x`, `if not x`, `if x is not None` (also used for `extensions_only=not call_depart`) *)
 Inductive cond := CVar (x : var) | CNot (x : var) | CIsNotNone (x : var).
+(* right-hand sides: a constant, a local, or the boolean value of a condition (`x = not y`) *)
+Inductive rhs := RConst (v : value) | RVar (x : var) | RCond (c : cond).
 
 (* the four properties of ExtList *)
 Inductive extlist := LBefore | LAfter | LInner | LOutter.
@@ -75,7 +76,7 @@ Definition eval_cond (e : env) (c : cond) : bool :=
   | CIsNotNone x => match e x with VNone => false | _ => true end
   end.
 Definition eval_rhs (e : env) (r : rhs) : value :=
-  match r with RConst v => v | RVar x => e x end.
+  match r with RConst v => v | RVar x => e x | RCond c => VBool (eval_cond e c) end.
 
 (* ONormal: fell off the end; OReturn: `return`; ORaise: exception in flight; OStuck: the program did something the
    language gives no meaning to (raise of a variable that holds no exception) *)
